@@ -20,7 +20,7 @@ use ttl_cache::TtlCache;
 fn show(r: Result<Option<huginn_net_tls::tls::Signature>, HuginnNetTlsError>) -> String {
     match r {
         Ok(None) => "-".into(),
-        Ok(Some(s)) => format!("sig:{}", s.generate_ja4().full.value()),
+        Ok(Some(s)) => format!("sig:{}", esc(s.generate_ja4().full.value())),
         Err(HuginnNetTlsError::Parse(m)) if m == "TLS record too large" => "err:too-large".into(),
         Err(HuginnNetTlsError::Parse(_)) => "err:parse".into(),
         Err(_) => "err:other".into(),
@@ -111,7 +111,7 @@ fn show_pk(r: Result<Option<huginn_net_tls::TlsClientOutput>, HuginnNetTlsError>
                 return format!("sig-wrong-endpoints:{}:{}", o.source.port, o.destination.port);
             }
             // the output carries the fingerprint computed by the processor
-            format!("sig:{}", o.sig.ja4.full.value())
+            format!("sig:{}", esc(o.sig.ja4.full.value()))
         }
         Err(HuginnNetTlsError::Parse(m)) if m.starts_with("Failed to retrieve flow") => "err:insert".into(),
         Err(HuginnNetTlsError::Parse(_)) => "err:parse".into(),
